@@ -488,7 +488,7 @@ def main():
     # hash-relevant fields spelled through %(variables)s (component / stage / global / platform definitions)
     nvar = 480 if c.tier == "thorough" else 36
     perv = 24 if c.tier == "thorough" else 6
-    jobs += [{"family_v": list(range(i, min(i + perv, nvar)))} for i in range(0, nvar, perv)]
+    jobs = [{"family_v": list(range(i, min(i + perv, nvar)))} for i in range(0, nvar, perv)] + jobs
     vlib.fanout("checks.C16", jobs, c, timeout=900)
     c.extra["plan"] = {"bases": nbases, "bases_per_worker": per}
     c.floor("bases", int(nbases * 0.95))
